@@ -14,7 +14,7 @@ RULE = ("client programs over {start, stop, enqueue (returning / raising / gate-
         "Non-trivial: at least one task and 20 model steps; distinct by (program, schedule policy).")
 MANIFEST_ENTRY = {
     "text": 'Theorems for every schedule/program/pool size: running bodies <= serving workers = thread counter <= max_threads at every instant; from the return of start() until stop() at least min_threads workers serve the queue; constructor rejects max < 1 and clamps min into [0, max]; growth: unfinished items <= workers still taking items + committed thread creations, or max_threads reached (every reachable state). Lock-step correspondence with the real pool under a controlled scheduler; the oracle checks both bounds per step and that dependent (gate-blocked) workloads of <= max_threads tasks never stall.',
-    "note": "Proved for ALL schedules/programs/pool sizes about Model/Pool.v (24 worker labels, 48 client labels, RLock, queue with its mutex and all_tasks_done condition); time-outs may fire at any moment in the theorems. Modelled, not verified: queue.Queue / threading primitives as atomic operations, CPython's atomicity of one source line, thread creation succeeds, unbounded queue, start()/stop() from one controlling thread. The growth clause is proved in its safety form (C10_growth, C10_growth_at_rest: in every reachable state of a running pool the unfinished items never exceed the workers that will still take one plus the threads start()/enqueue() are committed to create, unless max_threads workers exist). PARTIAL: that such a worker is eventually scheduled and that Queue.get hands a queued item to a blocked getter (fairness, the queue's contract) are not theorems; the oracle checks that dependent tasks never stall on the explored schedules only. int() conversion of constructor arguments is Python's.",
+    "note": "Proved for ALL schedules/programs/pool sizes about Model/Pool.v (24 worker labels, 48 client labels, RLock, queue with its mutex and all_tasks_done condition); time-outs may fire at any moment in the theorems. Modelled, not verified: queue.Queue / threading primitives as atomic operations, CPython's atomicity of one source line, thread creation succeeds, unbounded queue, start()/stop() from one controlling thread. The growth clause is proved in its safety form (C10_growth, C10_growth_at_rest, C10_growth_progress: in every reachable state of a running pool the unfinished items never exceed the workers that will still take one plus the threads start()/enqueue() are committed to create, unless max_threads workers exist). PARTIAL: that such a worker is eventually scheduled and that Queue.get hands a queued item to a blocked getter (fairness, the queue's contract) are not theorems; the oracle checks that dependent tasks never stall on the explored schedules only. int() conversion of constructor arguments is Python's.",
     "technique": "Coq proof of invariants over all schedules of a line-granularity interleaving model + lock-step correspondence under a controlled scheduler + property oracle",
     "design_ref": "DESIGN.md 4/C10 and 'The thread-pool model shared by C09, C10, C11'",
 }
